@@ -585,6 +585,7 @@ def gen_C09(rng, n):
         # thread carries a divergent filter: the kernel answers ESRCH instead of a thread id - still a refusal
         "actor 0;actor 1;load 1 a1 0 0 ok;load 2 a0 0 17 ok;load 3 a0 1 19 ok;load 4 a1 0 17 ok;load 5 a1 0 1 ok;probe",
         "drop;actor 0;actor 1;load 1 a1 1 0 ok;load 2 a0 1 17 ok;exit 1;load 2 a0 1 17 ok;probe",
+        "drop;actor 0;load 1 a0 0 17 ok;load 2 a0 0 19 ok;load 3 a0 1 17 ok;probe",
         # the very same request again with only the no_new_privs wish changed (same policy, same flags)
         "actor 0;load 1 a0 0 1 ok;load 1 a0 1 1 ok;load 1 a0 1 1 ok;probe",
         "actor 0;actor 1;load 1 a0 0 3 ok;load 1 a1 1 3 ok;load 1 a0 1 3 ok;probe",
@@ -726,6 +727,10 @@ def gen_C11(rng, thorough):
         "actor 0;actor 1;load 1 a0 0 3 ok;load 1 a1 1 3 ok;probe",
         "actor 0;load 1 g 0 1 mid;load 1 g 1 1 mid;probe",
         "actor 0;load 1 a0 0 17 ok;load 1 a0 1 17 ok;probe",
+        # thread sync with the kernel's "report ESRCH" bit (16) from an unprivileged process: without the bit requested the
+        # kernel refuses (EACCES) whatever the flag word says; with it the load succeeds
+        "drop;actor 0;load 1 a0 0 17 ok;load 2 a0 0 19 ok;load 3 a0 0 16 ok;load 4 a0 1 17 ok;probe",
+        "drop;actor 0;actor 1;load 1 a1 0 17 ok;load 2 g 0 17 ok;load 3 a0 1 19 ok;probe",
     ]
     # a large policy (tens of milliseconds between entering LoadFilter and the seccomp call) loaded from an unpinned
     # goroutine under scheduling pressure: bit and filter must still land on the same thread
@@ -908,7 +913,7 @@ def run_check(ctx, prop, prop_file, theorems, hist_texts, replay, rule, jobs=8):
 
 def check_C09(ctx, replay=None):
     rng = random.Random(ctx.seed * 1000003 + 9)
-    n = 44 if ctx.tier == "quick" else 240
+    n = 60 if ctx.tier == "quick" else 260
     run_check(ctx, "C09", "C09.v", C09_THEOREMS, gen_C09(rng, n), replay,
               "load histories from the seeded generator plus some twenty-five forced ones (refused thread-sync by a divergent / an ahead thread, unknown flag bits 0x80 / 0x40 / illegal combinations, a 5000-instruction program, invalid policies, dropped privilege, listener flag; valid policies that change no decision - no names, all allow -; the same filter loaded again after a refusal; Supported() on a thread whose filter answers seccomp(2) with EPERM / ENOSYS; prctl(2) answered with EPERM; two loads from two threads made to overlap between their prctl and seccomp steps - equal and different program lengths -; the filter chain filled to the kernel's ENOMEM limit with filters of about 4700, 600 and 20 internal instructions, so that the model's limit arithmetic (KernelState.internal_len) is compared with the kernel's to within twenty instructions), each executed by the real LoadFilter/Supported in a fresh child process (loads from locked OS threads and from ordinary goroutines) and replayed on the model inside Coq; every step compares result class, per-task Seccomp/Seccomp_filters and the set of filters answering the probe syscall; non-trivial = distinct history containing a kernel refusal (EINVAL/EACCES/thread-sync) or a successful thread-sync with several tasks")
 
